@@ -358,7 +358,7 @@ func ruleCheckThenAcquire(w *core.World, r *core.Report) {
 			switch s.Name {
 			case "(*syncer.MemoryChannel).inRangeLocked", "(*syncer.MemoryChannel).indexContinuousAofLocked", "(*syncer.memorySegment).acquire":
 				n++
-				if ls[s.Instr.(ssa.Instruction)]["p:mc.mux"].Mode < core.LockR {
+				if ls[s.Instr.(ssa.Instruction)]["p:#0.mux"].Mode < core.LockR {
 					ok = false
 				}
 			}
@@ -380,7 +380,7 @@ func ruleCheckThenAcquire(w *core.World, r *core.Report) {
 			switch s.Name {
 			case "(*pkg/store.dataSet).InRange", "(*pkg/store.dataSet).IndexAof", "(*pkg/store.dataSetAof).AddReader", "(*pkg/store.dataSetRdb).AddReader":
 				n++
-				if ls[s.Instr.(ssa.Instruction)]["p:s.mux"].Mode < core.LockR {
+				if ls[s.Instr.(ssa.Instruction)]["p:#0.mux"].Mode < core.LockR {
 					ok = false
 				}
 			}
@@ -390,7 +390,7 @@ func ruleCheckThenAcquire(w *core.World, r *core.Report) {
 		if g := w.Func("(*pkg/store.Storer).gcDataSet"); g != nil {
 			gl := core.Locksets(g)
 			for _, s := range core.SitesNamed(g, false, "(*pkg/store.dataSet).gcLogs") {
-				if gl[s.Instr.(ssa.Instruction)]["p:s.mux"].Mode == core.LockW {
+				if gl[s.Instr.(ssa.Instruction)]["p:#0.mux"].Mode == core.LockW {
 					gcOK = true
 				}
 			}
